@@ -43,15 +43,22 @@ pub enum IoAnswer {
 
 type IoHandler = Box<dyn FnMut(&IoReq) -> IoAnswer>;
 type IoctlHandler = Box<dyn FnMut(i32, u64, *mut c_void) -> Option<(i32, i32)>>;
+/// (fd, offset, len) -> None: forward unchanged; Some(Ok(o)): map file offset o instead;
+/// Some(Err(e)): fail with errno e. Used by the emulated gntdev, whose mmap offsets are device
+/// indexes, not file positions.
+type MmapXlate = Box<dyn FnMut(i32, i64, usize) -> Option<Result<i64, i32>>>;
 
 thread_local! {
     static MAP_RECORD: Cell<bool> = const { Cell::new(false) };
     static MAP_FAIL_IN: Cell<i64> = const { Cell::new(-1) };
+    static MAP_FAIL_FD_ONLY: Cell<bool> = const { Cell::new(false) };
     static IO_ACTIVE: Cell<bool> = const { Cell::new(false) };
     static IOCTL_ACTIVE: Cell<bool> = const { Cell::new(false) };
     static MAP_LOG: RefCell<Vec<MapEvent>> = const { RefCell::new(Vec::new()) };
     static IO_HANDLER: RefCell<Option<IoHandler>> = const { RefCell::new(None) };
     static IOCTL_HANDLER: RefCell<Option<IoctlHandler>> = const { RefCell::new(None) };
+    static XLATE_ACTIVE: Cell<bool> = const { Cell::new(false) };
+    static MMAP_XLATE: RefCell<Option<MmapXlate>> = const { RefCell::new(None) };
 }
 
 static GLOBAL_RECORD: std::sync::atomic::AtomicBool = std::sync::atomic::AtomicBool::new(false);
@@ -102,6 +109,14 @@ pub fn take_global_log() -> Vec<MapEvent> {
 
 /// The n-th (0-based) recorded mmap call of this thread from now on fails with ENOMEM.
 pub fn fail_mmap_in(n: i64) {
+    MAP_FAIL_FD_ONLY.with(|c| c.set(false));
+    MAP_FAIL_IN.with(|c| c.set(n));
+}
+
+/// Like `fail_mmap_in`, counting only mappings of a file descriptor (the allocator's anonymous
+/// mappings neither count nor fail).
+pub fn fail_fd_mmap_in(n: i64) {
+    MAP_FAIL_FD_ONLY.with(|c| c.set(true));
     MAP_FAIL_IN.with(|c| c.set(n));
 }
 
@@ -117,6 +132,11 @@ pub fn with_io_handler<R>(h: IoHandler, f: impl FnOnce() -> R) -> R {
 pub fn set_ioctl_handler(h: Option<IoctlHandler>) {
     IOCTL_ACTIVE.with(|c| c.set(h.is_some()));
     IOCTL_HANDLER.with(|c| *c.borrow_mut() = h);
+}
+
+pub fn set_mmap_xlate(h: Option<MmapXlate>) {
+    XLATE_ACTIVE.with(|c| c.set(h.is_some()));
+    MMAP_XLATE.with(|c| *c.borrow_mut() = h);
 }
 
 fn log_event(ev: MapEvent) {
@@ -146,7 +166,8 @@ pub unsafe extern "C" fn mmap(
 ) -> *mut c_void {
     let rec = recording();
     if rec {
-        let fail = MAP_FAIL_IN
+        let counted = fd >= 0 || !MAP_FAIL_FD_ONLY.try_with(|c| c.get()).unwrap_or(false);
+        let fail = counted && MAP_FAIL_IN
             .try_with(|c| {
                 let v = c.get();
                 if v >= 0 {
@@ -169,6 +190,35 @@ pub unsafe extern "C" fn mmap(
             return libc::MAP_FAILED;
         }
     }
+    let mut real_offset = offset;
+    if fd >= 0 && XLATE_ACTIVE.try_with(|c| c.get()).unwrap_or(false) {
+        let ans = MMAP_XLATE
+            .try_with(|h| match h.try_borrow_mut() {
+                Ok(mut g) => g.as_mut().and_then(|f| f(fd, offset as i64, len)),
+                Err(_) => None,
+            })
+            .ok()
+            .flatten();
+        match ans {
+            Some(Ok(o)) => real_offset = o as off_t,
+            Some(Err(e)) => {
+                if rec {
+                    log_event(MapEvent::Map {
+                        addr: 0,
+                        len,
+                        prot,
+                        flags,
+                        fd,
+                        offset,
+                        ok: false,
+                    });
+                }
+                set_errno(e);
+                return libc::MAP_FAILED;
+            }
+            None => {}
+        }
+    }
     let r = libc::syscall(
         libc::SYS_mmap,
         addr,
@@ -176,7 +226,7 @@ pub unsafe extern "C" fn mmap(
         prot as c_long,
         flags as c_long,
         fd as c_long,
-        offset as c_long,
+        real_offset as c_long,
     );
     let p = r as *mut c_void;
     if rec {
